@@ -94,15 +94,28 @@ ATOMS = {
     'interm':   ('start: A~%s\nA: "a"~%s\n', None, None, None),   # placeholder, handled separately
 }
 
+# repeated *sequences* inside a terminal: alternation groups, literal parentheses and brackets (the regexp is assembled textually); (item, units it matches)
+TERM_ITEMS = [('(("(" | "[") "x" (")" | "]"))', ['(x)', '[x]', '(x]']), ('(("(" | "a") ("b" | "c"))', ['(b', 'ac', 'ab']), ('("a" | "b" "c")', ['a', 'bc', 'a']),
+              ('(/[(]/ "x" /[)]/)', ['(x)']), ('(("a" | "b") "-" ("c"))', ['a-c', 'b-c']), ('("a" ("b" | ")")?)', ['ab', 'a)', 'a']), ('(("x")+ ";")', ['x;', 'xx;'])]
+
+
 def _e2e_case(args):
     """returns list of (descr, expected_accept, got_accept, children_ok)"""
     kind, parser, op, mn, mx, ks = args
     from lark import Lark, Tree, Token
     from lark.exceptions import UnexpectedInput, GrammarError
     out = []
+    units = None
     if kind == 'termside':
         g = 'start: A\nA: "b" "a"%s\n' % op      # the leading "b" keeps the terminal from matching the empty string
         unit, per = 'a', None
+    elif kind == 'adjacent':
+        g = 'start: %s\nA: "a"\n' % op        # several operators on the same item side by side: their expansions coincide in many ways
+        unit, per = 'a', 1
+    elif kind.startswith('termseq'):
+        item, units = TERM_ITEMS[int(kind[7:])]
+        g = 'start: A\nA: "b" %s%s\n' % (item, op)
+        unit, per = None, None
     else:
         g, unit, per, _ = ATOMS[kind]
         g = g % op[1:] if op.startswith('~') else g.replace('~%s', op)
@@ -112,7 +125,10 @@ def _e2e_case(args):
         except GrammarError as e:
             return [(g, None, 'GrammarError: %s' % str(e)[:100], True)]
     for k in ks:
-        text = unit * k if kind != 'termside' else 'b' + unit * k
+        if units is not None:
+            text = 'b' + ''.join(units[(j + k) % len(units)] for j in range(k))
+        else:
+            text = unit * k if kind != 'termside' else 'b' + unit * k
         exp = mn <= k and (mx is None or k <= mx)
         with guarded(60):
             try:
@@ -121,10 +137,12 @@ def _e2e_case(args):
             except UnexpectedInput:
                 got, t = False, None
         ok = True
-        if got and kind != 'termside':
+        if got and kind != 'termside' and units is None:
             ch = t.children if kind != 'template' else t.children[0].children
             ok = len(ch) == k * per and all(isinstance(c, (Tree, Token)) and not str(getattr(c, 'data', '')).startswith('_') for c in ch)
-            if kind == 'group':
+            if kind == 'adjacent':
+                ok = ok and all(c == 'a' for c in ch)
+            elif kind == 'group':
                 ok = ok and [str(c) for c in ch] == ['a', 'b'] * k
             elif kind == 'rule':
                 ok = ok and all(getattr(c, 'data', None) == 'x' for c in ch)
@@ -188,7 +206,7 @@ def run(ctx, res):
     e2e_pairs += [(mn, mn + d) for mn, d in ((rng.randrange(0, 140), rng.choice([0, 1, rng.randrange(0, 120)])) for _ in range(tier_scale(tier, 40, 400) * (3 if deep else 1)))]
     if tier == 'thorough':
         e2e_pairs += [(mn, mx) for mx in range(45, 75) for mn in range(0, mx + 1, 3)]
-    kinds = ['term', 'anon', 'rule', 'group', 'template', 'termside']
+    kinds = ['term', 'anon', 'rule', 'group', 'template', 'termside'] + ['termseq%d' % i for i in range(len(TERM_ITEMS))]
     for i, (mn, mx) in enumerate(e2e_pairs):
         for kind in (kinds if i < 16 or tier == 'thorough' else [kinds[i % len(kinds)], kinds[(i // 2 + 3) % len(kinds)]]):
             for parser in ('earley', 'lalr'):
@@ -199,6 +217,20 @@ def run(ctx, res):
             jobs.append((kind, parser, '?', 0, 1, [0, 1, 2, 3]))
             jobs.append((kind, parser, '*', 0, None, [0, 1, 2, 3, 17, 140]))
             jobs.append((kind, parser, '+', 1, None, [0, 1, 2, 3, 17, 140]))
+    # adjacent operators on one item: A? A~0..2, A~1..3 A~1..3, A? A? A?, (A?)~60 ... must match every count between the sums of the bounds
+    def adj_item():
+        r = rng.random()
+        if r < 0.35: return ('A?', 0, 1)       # not [A]: with placeholders the coinciding expansions differ in their None slots, which is the documented GrammarError
+        if r < 0.5: return ('A', 1, 1)
+        a = rng.randint(0, 3); b = a + rng.randint(0, 3)
+        return ('A~%d..%d' % (a, b), a, b) if a != b or rng.random() < 0.5 else ('A~%d' % a, a, a)
+    adj = [[('A?', 0, 1), ('A~0..2', 0, 2)], [('A~0..2', 0, 2)] * 2, [('A~1..3', 1, 3)] * 2, [('A?', 0, 1)] * 3, [('(A?)~60', 0, 60)], [('(A?)~3', 0, 3), ('A?', 0, 1)], [('(A? A?)~2', 0, 4)]]
+    adj += [[adj_item() for _ in range(rng.randint(2, 4))] for _ in range(tier_scale(tier, 40, 600))]
+    for items in adj:
+        lo, hi = sum(i[1] for i in items), sum(i[2] for i in items)
+        body = ' '.join(i[0] for i in items)
+        for parser in ('earley', 'lalr'):
+            jobs.append(('adjacent', parser, body, lo, hi, sorted({max(lo - 1, 0), lo, (lo + hi) // 2, hi, hi + 1})))
     outs = pmap(_e2e_case, jobs, chunksize=2)
     for job, (st, r) in zip(jobs, outs):
         kind, parser, op, mn, mx, ks = job
